@@ -201,7 +201,13 @@ func (e *Engine) clientFn(op *Op) func(t *Task) {
 		for _, kv := range op.Header {
 			req.Header.Add(kv[0], kv[1])
 		}
-		req = req.WithContext(context.WithValue(context.Background(), http.ServerContextKey, dummyServer))
+		ctx := context.WithValue(context.Background(), http.ServerContextKey, dummyServer)
+		if op.Cancellable {
+			var cancel context.CancelFunc
+			ctx, cancel = context.WithCancel(ctx)
+			t.setCancel(cancel)
+		}
+		req = req.WithContext(ctx)
 		rw := newRW(op.Method)
 		func() {
 			defer func() {
@@ -230,6 +236,12 @@ func (e *Engine) clientFn(op *Op) func(t *Task) {
 
 //go:norace
 func (t *Task) setResult(r *ClientResult) { t.res = r }
+
+//go:norace
+func (t *Task) setCancel(f func()) { t.cancel = f }
+
+//go:norace
+func (t *Task) getCancel() func() { return t.cancel }
 
 //go:norace
 func (t *Task) getResult() *ClientResult { return t.res }
@@ -588,7 +600,7 @@ func (e *Engine) applyStore(c *StoreCall, fault string, serial int) {
 			disk.sync() // the store happened to flush
 		}
 	case "delete":
-		if name == "err" {
+		if name == "err" || name == "delerr" {
 			c.err = errSimStore
 			return
 		}
